@@ -82,6 +82,8 @@ class Project:
                     f"Dependency loop detected {target_name} -> {dep}"
                 )
             self.dfs(dep, state)
+        # This target is no longer on the path currently being explored:
+        state.remove(target_name)
 
     def check_target(self, target_name):
         state = set()
